@@ -310,5 +310,21 @@ def _model(case, ctx, d):
                     ctx.violation('window_mismatch', desc, 'get_waveforms (store): spike %d channel %d: %r != %r' % (
                         sid[o], c, out[i, :, c].tolist() if out.ndim == 3 else out.shape, e.tolist()), fs)
                     return
+        # spikes that are not all in the store: the model falls back to the raw data (judged for factor 1)
+        missing = np.setdiff1d(np.arange(ns), sid)
+        if len(missing) and factor in (1, 1.0):
+            ids = np.sort(np.r_[missing[:3], sid[:2]])
+            chq = rng.permutation(spec.n_channels)[:int(rng.integers(1, spec.n_channels + 1))]
+            rr = call(m.get_waveforms, ids, chq)
+            ctx.cell('model', 'store_fallback')
+            if not rr.ok:
+                ctx.violation('route_raised', desc, 'get_waveforms (spikes outside the store) raised %r' % rr.exc,
+                              dict(fs, exc=rr.exc_name, fallback=True), tb=rr.tb)
+            else:
+                exp = windows(A, spec.spike_samples[ids], nsw, [chq.tolist()] * len(ids))
+                dd = same(rr.value, exp, dtype=False)
+                if dd:
+                    ctx.violation('window_mismatch', desc, 'get_waveforms (spikes outside the store -> raw data): ' + dd,
+                                  dict(fs, fallback=True))
     finally:
         call(m.close)
